@@ -138,6 +138,8 @@ class OracleMixin:
             self.violate("C07.members_cancelled", msg + " (requested by a group cancellation)")
         if "stop" in t.vias:
             self.violate("C14.targets", msg + " (requested by stop())")
+        if "in_flush" in t.vias:
+            self.violate("C13.running_cancellable", msg + " (the task was awaiting flush() of its pool: flush must not make a running task uncancellable)")
 
     def on_finish(self, pr, t):
         self.sit["end." + t.outcome] += 1
